@@ -529,6 +529,23 @@ func (in *instrumenter) rewriteFile(p *pkgInfo, f *ast.File, name string, write 
 					}
 				}
 			case *ast.CallExpr:
+				// channel methods of reflect.Value: x.Recv(), x.Send(v), x.Close()
+				if se, ok := x.Fun.(*ast.SelectorExpr); ok && (se.Sel.Name == "Recv" || se.Sel.Name == "Send" || se.Sel.Name == "Close" || se.Sel.Name == "TryRecv" || se.Sel.Name == "TrySend") {
+					if tv, ok := p.info.Types[se.X]; ok && tv.Type != nil && tv.Type.String() == "reflect.Value" {
+						switch {
+						case se.Sel.Name == "Recv" && len(x.Args) == 0, se.Sel.Name == "Close" && len(x.Args) == 0:
+							add(off(se.X.Pos()), 0, rt+".RV"+se.Sel.Name+"(")
+							add(off(se.X.End()), int(x.Lparen+1-se.X.End()), "")
+							in.res.Seams["reflect_chan"]++
+						case se.Sel.Name == "Send" && len(x.Args) == 1:
+							add(off(se.X.Pos()), 0, rt+".RVSend(")
+							add(off(se.X.End()), int(x.Lparen+1-se.X.End()), ", ")
+							in.res.Seams["reflect_chan"]++
+						default:
+							in.noteUnseamed(relFile, x.Pos(), "reflect.Value."+se.Sel.Name+" (not virtualised)")
+						}
+					}
+				}
 				if id, ok := x.Fun.(*ast.Ident); ok && id.Name == "close" && len(x.Args) == 1 {
 					isBuiltin := true
 					if obj, ok := p.info.Uses[id]; ok {
@@ -597,7 +614,8 @@ func (in *instrumenter) rewriteFile(p *pkgInfo, f *ast.File, name string, write 
 							}
 						}
 					} else if id.Name == "reflect" && x.Sel.Name == "Select" && isPkgIdent(id, "reflect") {
-						in.noteUnseamed(relFile, x.Pos(), "reflect.Select (reflective channel operations are not virtualised)")
+						add(off(x.Pos()), int(x.End()-x.Pos()), rt+".ReflectSelect")
+						in.res.Seams["reflect_select"]++
 					} else if id.Name == "signal" && x.Sel.Name == "Notify" && isPkgIdent(id, "signal") {
 						in.noteUnseamed(relFile, x.Pos(), "signal.Notify (delivery from outside the simulation)")
 					} else if isPkgIdent(id, mhName) {
